@@ -178,6 +178,7 @@ def _publish(ck, p):
             ok = ok and good
             detail += "; " + why
             _segments_pitfall(ck, p, f, rule)
+            _prefix_pitfall(ck, p, f, rule)
         n += 1
         ck.decide(rule, "Backend::%s" % name, ok, f.span, detail)
     ck.floor(rule, "handler paths checked", n, 5)
@@ -206,6 +207,33 @@ def _publish(ck, p):
             always, wit = fcfg.every_path_passes(0, [snd[0][0]])
             ck.decide(rule, "Backend::publish_diagnostics:always-sends", always, f.span, "every path through publish_diagnostics reaches client.send_notification(PublishDiagnostics): %s%s" % (
                 always, "" if always else " - blocks %s return without publishing: the client keeps whatever it was last sent (for a re-opened document: the empty list did_close published)" % wit))
+
+
+def _prefix_pitfall(ck, p, f, rule):
+    """which open documents a deleted path covers: a document is covered when its URI IS the deleted one or lies
+    below it - a prefix that ends at a path separator.  A bare string prefix also covers siblings whose name merely
+    starts the same way (`notes.md` deleted, `notes.mdx` open)."""
+    bodies = list(with_closures(p, f))
+    for g in list(getattr(p, "new_helpers", {}).values()):
+        bodies += with_closures(p, g)
+    sw = []
+    for h in bodies:
+        for _, t in h.calls():
+            if method(t) == "starts_with" and "core::str" in norm(inst_of(t) or "") and len(t["args"]) == 2:
+                pat = h.local_tystr(place_of(t["args"][1])[0]) if place_of(t["args"][1]) else ""
+                if "str" in (pat or ""):
+                    sw.append((h, t))
+    if not sw:
+        return
+    key = "Backend::did_change_watched_files:deleted-path-prefix"
+    names = {method(t) for h in bodies for _, t in h.calls()}
+    sep = names & {"strip_prefix", "ends_with", "split", "path_segments", "parent", "strip_suffix", "components", "eq"}
+    chars = any(method(t) in ("starts_with", "ends_with") and len(t["args"]) == 2 and (h.local_tystr(place_of(t["args"][1])[0]) if place_of(t["args"][1]) else "char") == "char" for h in bodies for _, t in h.calls())
+    h, t = sw[0]
+    if sep or chars:
+        ck.proved(rule, key, h.loc(t["ln"]), "the prefix test comes with a separator test (%s)" % ", ".join(sorted(sep) or ["a character test"]))
+    else:
+        ck.refuted(rule, key, h.loc(t["ln"]), "an open document counts as deleted when its URI merely starts with the deleted URI as a string (str::starts_with, no test for a path separator behind the prefix): deleting `notes.md` also drops the state of the open `notes.mdx` and publishes an empty list for it - its diagnostics stay empty on every later change until it is closed and opened again")
 
 
 def _segments_pitfall(ck, p, f, rule):
